@@ -38,6 +38,8 @@ T = [
  ("C01-let-escaped-newline", W("file","bash","i0","let a=1+\\\n2\n")),
  ("C01-zsh-simplify-slice-modifier", W("file","zsh","i0","echo ${x:$a}\n", s=1)),
  ("C01-zsh-subshell-anon-func", W("file","zsh","i0","( () { a; } )\n")),
+ ("C01-dashhdoc-nested-string-indent", W("file","bash","i0","cat <<-E\n\t$(echo 'a\nb')\n\tE\n")),
+ ("C01-hdoc-delim-tab", W("file","bash","i0","cat <<E\\\tF\nx\nE\tF\n")),
  ("C01-zsh-modifier-tab", W("file","zsh","i0","${:x\t}\n")),
  ("C01-minify-empty-block", W("file","mksh","i0,mn","{ }\n")),
  ("C01-command-first-newline", W("cmd#0","bash","i0","case x in\nesac\n")),
@@ -54,6 +56,8 @@ T = [
  ("C02-heredoc-comment-into-body", W("file","bash","i0","<<EOF x #c\n$(a)\nEOF\n", c=1)),
  ("C02-backquote-comment-close", W("file","bash","i0","`a #c`\n", c=1)),
  ("C02-backquote-heredoc-close", W("file","bash","i0","`cat <<EOF\nx\nEOF`\n", c=1)),
+ ("C02-select-header-comment", W("file","bash","i0","select i in 1 2 # c\ndo foo; done\n", c=1)),
+ ("C02-single-loop-header-comment", W("file","bash","i0,sl","{\nfor i # c\ndo a; done\n}\n", c=1)),
 ]
 FIXED = ['C01-command-first-newline', 'C01-comment-backslash-newline', 'C01-dashhdoc-inner-tab', 'C01-dashhdoc-vt-ff', 'C01-heredoc-pipe-test-let', 'C01-minify-empty-block', 'C01-minify-last-case-op', 'C01-single-heredoc-buried', 'C01-single-missing-semicolon', 'C01-slice-offset-incdec', 'C01-stale-wrotesemi-keyword', 'C01-tabwriter-vt-ff', 'C01-zsh-minify-short-subscript', 'C01-zsh-modifier-tab', 'C01-zsh-special-param-subscript', 'C01-zsh-subshell-anon-func', 'C02-dashhdoc-reindent']
 # usage: l4_witnesses.py C01 known|fixed
